@@ -515,7 +515,7 @@ def _enumerate_coarse(cache, progs, limit=None, rng=None, nocompile=False):
         if any(len(d) >= 64 for d in done):
             raise RuntimeError("C09 harness: enumeration fuel exhausted")
     else:
-        lines = [lib.model_call("swap.walk", cfg, progs, [rng.randrange(1 << 20) for _ in range(64)])
+        lines = [lib.model_call("swap.walk", cfg, progs, [rng.randrange(60) for _ in range(64)])
                  for _ in range(limit)]
         done = [list(w) for w in sorted({tuple(lib.dec(x)) for x in lib.run_model("swap", lines)})]
     # blocked situations among the prefixes of a few schedules
@@ -818,7 +818,7 @@ def run(chk):
     for ci, (cache, pol) in enumerate(CONFIGS):
         progs = [U2, [["eval", ci % 2]]]
         if quick:
-            scheds, _ = enumerate_coarse(cache, progs + [[]], limit=(500 if ci == 0 else 150), rng=rng)
+            scheds, _ = enumerate_coarse(cache, progs + [[]], limit=(900 if ci == 0 else 150), rng=rng)
         else:
             scheds, _ = enumerate_coarse(cache, progs + [[]])
             enum_stats["ABA||E"] = len(scheds)
